@@ -33,6 +33,7 @@ static inline uint64_t verif_nd_range(uint64_t lo, uint64_t hi) { uint64_t v = n
 #define WITNESS() __CPROVER_assert(0, "WITNESS: end of harness reachable")
 #define OBSERVE(x) ((void)0)
 #define VERIF_IS_CBMC 1
+#define VERIF_RANDOM_MODE() 0
 #else
 #include <stdio.h>
 #include <setjmp.h>
@@ -52,6 +53,9 @@ uint64_t verif_native_draw(uint64_t lo, uint64_t hi, int ranged);
 #define WITNESS() ((void)0)
 #define OBSERVE(x) do { verif_obs = (verif_obs ^ (uint64_t)(x)) * 1099511628211ULL; if (verif_verbose) printf("OBS %s = %llu\n", #x, (unsigned long long)(uint64_t)(x)); } while (0)
 #define VERIF_IS_CBMC 0
+extern int verif_random_mode;
+/* true only in native pseudo-random validation runs: harnesses may use it to steer random inputs into the assumed region */
+#define VERIF_RANDOM_MODE() verif_random_mode
 #endif
 
 static inline double verif_bits_to_double(uint64_t b) { double d; memcpy(&d, &b, 8); return d; }
